@@ -60,6 +60,48 @@ Check (resolve_impl_total : typed_resolve_is_checked = false -> forall base ref,
 Check (resolve_impl_no_path_spec : forall base ref,
   match ref with [] => true | c :: _ => N.eqb c k_qmark || N.eqb c k_hash end = true ->
   resolve_impl base ref = Some (resolve base ref)).
+(* ===== the other public entry points (widened harness) ===== *)
+Check (is_valid_suffixed_iri_ref_spec : forall ns suf,
+  is_valid_suffixed_iri_ref ns suf = matchb IRI_reference (ns ++ match suf with Some x => x | None => [] end)).
+Check (suffixed_split_irrelevant : forall s n,
+  is_valid_suffixed_iri_ref (firstn n s) (Some (skipn n s)) = is_valid_iri_ref s).
+Check (base_new_spec : forall s,
+  base_iri_new_ok s = matchb IRI s /\ base_iriref_new_ok s = matchb IRI_reference s).
+Check (parts_ok_recompose : forall s abs sch auth pth q f,
+  parts_ok s abs sch auth pth q f = true ->
+  recompose (mk_parts sch auth pth q f) = s /\ abs = is_some sch).
+Check (wrap_eqb_eq : forall a b, wrap_eqb a b = true <-> a = b).
+Check (wrap_cmp_antisym : forall a b, wrap_cmp b a = CompOpp (wrap_cmp a b)).
+Check (wrap_cmp_trans : forall c a b d, wrap_cmp a b = c -> wrap_cmp b d = c -> wrap_cmp a d = c).
+Check (cmp_ok_sound : forall a b c, cmp_ok a b c = true <-> wrap_cmp a b = c).
+Check (protect_result_absolute : forall base ref o,
+  is_some (p_scheme (base_parts base)) = true -> protect_result base ref o = o).
+Check (resolve_str_invalid : forall base ref, is_valid_iri_ref ref = false -> resolve_str_impl base ref = None).
+Check (resolve_str_typed_agree : forall base ref,
+  typed_resolve_is_checked = true -> is_valid_iri_ref ref = true ->
+  is_some (p_scheme (base_parts base)) = true ->
+  resolve_str_impl base ref = resolve_impl base ref).
+Check (resolve_str_rel_agree : forall base ref o,
+  typed_resolve_is_checked = true -> is_valid_iri_ref ref = true ->
+  resolve_rel_impl base ref = Some o -> resolve_str_impl base ref = Some o).
+Check (resolve_rel_impl_valid : forall base ref o,
+  resolve_rel_impl base ref = Some o -> matchb IRI_reference o = true).
+Check (no_colon_no_scheme : forall s, has_colon (first_segment s) = false -> p_scheme (parse5 s) = None).
+(* BaseIriRef::resolve after the repair: two references without a scheme give a reference without a scheme *)
+Check (resolve_rel_no_scheme : forall base ref o,
+  p_scheme (parse5 base) = None -> has_colon (first_segment ref) = false ->
+  resolve_rel_impl base ref = Some o ->
+  p_scheme (parse5 o) = None /\ matchb IRI_reference o = true).
+(* non-vacuity: the hypotheses hold for ("", "./:"), where oxiri alone returns ":" *)
+Example resolve_rel_no_scheme_applies :
+  p_scheme (parse5 []) = None /\ has_colon (first_segment [46;47;58]) = false /\
+  resolve_rel_impl [] [46;47;58] = Some [46;47;58].
+Proof. vm_compute. repeat split; reflexivity. Qed.
+Example parts_ok_example :                      (* "s://h/p?q#f" *)
+  parts_ok [115;58;47;47;104;47;112;63;113;35;102] true (Some [115]) (Some [104]) [47;112] (Some [113]) (Some [102]) = true /\
+  cmp_ok [97] [97;98] Lt = true /\ cmp_ok [98] [97;98] Gt = true /\ cmp_ok [233] [233] Eq = true.
+Proof. vm_compute. repeat split; reflexivity. Qed.
+
 (* defects on record (see Proofs.v): the pre-fix regexes, the resolver's panic and its deviations
    from RFC 3986 5.2, and the fact that 5.2 itself is not closed under validity *)
 
@@ -99,3 +141,19 @@ Print Assumptions resolve_panics_refuted.
 Print Assumptions resolve_keeps_dots_refuted.
 Print Assumptions resolve_above_root_refuted.
 Print Assumptions rfc_resolution_not_closed.
+(* is_valid_suffixed_iri_ref_spec, base_new_spec, resolve_rel_impl_valid, resolve_rel_no_scheme are the conjuncts of: *)
+Print Assumptions wide_entry_points_rfc3987.
+Print Assumptions suffixed_split_irrelevant.
+Print Assumptions parts_ok_recompose.
+Print Assumptions wrap_eqb_eq.
+Print Assumptions wrap_cmp_antisym.
+Print Assumptions wrap_cmp_trans.
+Print Assumptions cmp_ok_sound.
+Print Assumptions protect_result_absolute.
+Print Assumptions resolve_str_invalid.
+Print Assumptions resolve_str_typed_agree.
+Print Assumptions resolve_str_rel_agree.
+Print Assumptions no_colon_no_scheme.
+Print Assumptions resolve_rel_colon_protected.
+Print Assumptions resolve_rel_no_scheme_applies.
+Print Assumptions parts_ok_example.
